@@ -2955,6 +2955,11 @@ event_del_nolock_(struct event *ev, int blocking)
 		if (ev->ev_ncalls && ev->ev_pncalls) {
 			/* Abort loop */
 			*ev->ev_pncalls = 0;
+			/* The closure stops now and never clears these again:
+			 * ev_pncalls points into its stack frame and must not
+			 * be used by a later event_del(). */
+			ev->ev_pncalls = NULL;
+			ev->ev_ncalls = 0;
 		}
 	}
 
